@@ -3,6 +3,7 @@ NEXT Next
 CONSTANTS
   MaxItems = 1
   MaxDepth = 1
+  GapSet <- LetGaps
   LitSet <- QuickLits
 INVARIANT Emit
 CHECK_DEADLOCK FALSE
